@@ -16,6 +16,7 @@ import (
 	gojson "github.com/goccy/go-json"
 	"pgregory.net/rapid"
 
+	_ "verif/harness/dec"
 	"verif/harness/enc"
 	"verif/harness/gen"
 	"verif/harness/known"
@@ -225,7 +226,9 @@ func runCase(c *Case, v reflect.Value) string {
 		}},
 		{"MarshalNoEscape", func() ([]byte, error) { return gojson.MarshalNoEscape(val) }, id},
 		{"MarshalContext", func() ([]byte, error) { return gojson.MarshalContext(context.Background(), val) }, id},
-		{"Debug", func() ([]byte, error) { return gojson.MarshalWithOption(val, gojson.Debug(), gojson.DebugWith(io.Discard)) }, id},
+		{"Debug", func() ([]byte, error) {
+			return gojson.MarshalWithOption(val, gojson.Debug(), gojson.DebugWith(io.Discard))
+		}, id},
 		{"Marshal(&v)", func() ([]byte, error) { return gojson.Marshal(v.Addr().Interface()) }, id},
 		{"[]interface{}{v}", func() ([]byte, error) { return gojson.Marshal([]interface{}{val}) }, func(b []byte) ([]byte, bool) {
 			return append(append([]byte("["), b...), ']'), true
@@ -427,14 +430,13 @@ func TestReplay(t *testing.T) {
 }
 
 func TestWitness(t *testing.T) {
-	if rt.E.Witness == kfColorString {
+	known.Witnesses[kfColorString] = func() (bool, string) {
 		v := struct {
 			A string `json:",string"`
 		}{"s"}
 		p, _ := gojson.Marshal(v)
 		g, _ := gojson.MarshalWithOption(v, gojson.Colorize(gojson.DefaultColorScheme))
-		rt.WitnessResult(!bytes.Equal(p, stripMarkers(g)), fmt.Sprintf("plain=%q colour-stripped=%q", p, stripMarkers(g)))
-		return
+		return !bytes.Equal(p, stripMarkers(g)), fmt.Sprintf("plain=%q colour-stripped=%q", p, stripMarkers(g))
 	}
 	enc.RunWitness(t)
 }
